@@ -49,6 +49,15 @@ CHECKS = {
         note="Trusted: mc/fscm.py (functional witness, noise enumeration), evaluator, reading of values stated in DESIGN 2.4.",
         design="4/C07",
     ),
+    "C08": dict(
+        text="Every (outcome, condition) pair of counterfactual event items on every graph of the bound is passed to idc_star; the "
+        "result is evaluated on two functional witness SCMs by exhaustive noise enumeration for every base assignment and compared "
+        "with P(outcomes, conditions)/P(conditions); Zero() only for impossible joint events; an impossible condition must be "
+        "rejected. Failing inputs caused by the ID* defects that the repository's tests pin are listed in an index; any other "
+        "failing input is a violation.",
+        note="Trusted: mc/fscm.py, evaluator; two admissible readings of the normalising sum (DESIGN 2.4).",
+        design="4/C08",
+    ),
     "C18": dict(
         text="Same event space: make_counterfactual_graph's relabelled event must have the same probability as the original on the "
         "functional witness for every base assignment, 'inconsistent' only for probability-zero events, and the returned graph "
